@@ -2,6 +2,7 @@
 C12 — Ontology change tracking never misses a change.
 -/
 import EdxmlModel
+import EdxmlModel.Ontology.Owner
 namespace EdxmlProps.C12
 open Edxml.Track
 
@@ -51,6 +52,116 @@ theorem counter_sound (before after : List (MutKind × Store)) (op : MutKind × 
   have h2 := counter_monotone after (fun o ho => hk o (List.mem_cons_of_mem _ ho)) (step (run s before) op.1 op.2)
   simp only [modifiedSince, decide_eq_true_eq]
   omega
+
+/-! ### who is told about a change: the references from an element to what contains it -/
+
+section owner
+open Edxml.Owner
+
+/-- what an ontology holds, at any depth -/
+inductive Reach (h : Heap) (o : Nat) : Nat → Prop
+  | root : Reach h o o
+  | step {y x : Nat} : Reach h o y → x ∈ h.children y → Reach h o x
+
+/-- the references are sound for ontology `o`: it is an ontology, and everything it holds, at any
+depth, refers back to the object that holds it -/
+structure Owned (h : Heap) (o : Nat) : Prop where
+  top : h.owner o = none
+  back : ∀ y x, Reach h o y → x ∈ h.children y → h.owner x = some y
+
+/-- **C12: a change at any nesting depth reaches the counter of the ontology that holds the element**:
+when the references are sound, the notification walk from any element the ontology holds ends at that
+ontology (given fuel for the depth of the element) -/
+theorem notified_reaches_root (h : Heap) (o : Nat) (ho : Owned h o) (x : Nat) (hx : Reach h o x) :
+    ∃ d, ∀ fuel, d ≤ fuel → notified h fuel x = o := by
+  induction hx with
+  | root =>
+    refine ⟨0, fun fuel _ => ?_⟩
+    cases fuel with
+    | zero => rfl
+    | succ n => simp [notified, ho.top]
+  | step hy hmem ih =>
+    rename_i y x
+    obtain ⟨d, hd⟩ := ih
+    refine ⟨d + 1, fun fuel hf => ?_⟩
+    cases fuel with
+    | zero => omega
+    | succ n =>
+      simp only [notified, ho.back y x hy hmem]
+      exact hd n (by omega)
+
+theorem reach_attach {h : Heap} {o y x z : Nat} (hz : Reach (attach h y x) o z) (hfresh : h.children x = []) :
+    Reach h o z ∨ z = x := by
+  induction hz with
+  | root => exact Or.inl Reach.root
+  | step hy hmem ih =>
+    rename_i a b
+    rcases ih with ih | ih
+    · simp only [attach] at hmem
+      split at hmem
+      · rename_i hay
+        rcases List.mem_cons.mp hmem with hb | hb
+        · exact Or.inr hb
+        · exact Or.inl (Reach.step ih (hay ▸ hb))
+      · exact Or.inl (Reach.step ih hmem)
+    · subst ih
+      simp only [attach] at hmem
+      split at hmem
+      · rename_i hay
+        rcases List.mem_cons.mp hmem with hb | hb
+        · exact Or.inr hb
+        · rw [hfresh] at hb; cases hb
+      · rw [hfresh] at hmem; cases hmem
+
+/-- creating a definition in a container, or adopting one with its reference re-pointed, keeps the
+references sound (the definition is new to the ontology, holds nothing yet, and is not the ontology) -/
+theorem attach_owned (h : Heap) (o y x : Nat) (ho : Owned h o) (hy : Reach h o y) (hxo : x ≠ o)
+    (hnew : ¬ Reach h o x) (hfresh : h.children x = []) : Owned (attach h y x) o := by
+  constructor
+  · simp only [attach]
+    rw [if_neg (fun e => hxo e.symm)]
+    exact ho.top
+  · intro a b ha hb
+    rcases reach_attach ha hfresh with ha' | ha'
+    · simp only [attach] at hb ⊢
+      split at hb
+      · rename_i hay
+        rcases List.mem_cons.mp hb with hbx | hbx
+        · rw [hbx, if_pos rfl, hay]
+        · have hbne : b ≠ x := fun e => hnew (e ▸ Reach.step ha' (hay ▸ hbx))
+          rw [if_neg hbne]
+          exact ho.back a b ha' (hay ▸ hbx)
+      · have hbne : b ≠ x := fun e => hnew (e ▸ Reach.step ha' hb)
+        rw [if_neg hbne]
+        exact ho.back a b ha' hb
+    · subst ha'
+      simp only [attach] at hb
+      split at hb
+      · rename_i hay
+        rcases List.mem_cons.mp hb with hbx | hbx
+        · -- x = y would make x reachable before
+          exact absurd (hay ▸ hy) hnew
+        · rw [hfresh] at hbx; cases hbx
+      · rw [hfresh] at hb; cases hb
+
+/-- adopting a definition by reference WITHOUT re-pointing it breaks the invariant: its changes are
+reported to where it came from (the defects repaired by a8e4706 and cef2148, and what the ownership
+audit of the correspondence check looks for) -/
+theorem attachStale_breaks :
+    let h : Heap := { owner := fun k => if k = 5 then some 9 else none, children := fun _ => [] }
+    let h' := attachStale h 0 5
+    5 ∈ h'.children 0 ∧ notified h' 3 5 = 9 ∧ ¬ Owned h' 0 := by
+  refine ⟨by simp [attachStale], by simp [notified, attachStale], ?_⟩
+  intro ho
+  have := ho.back 0 5 Reach.root (by simp [attachStale])
+  simp [attachStale] at this
+
+/-- the executable audit agrees with the invariant on the edges it is given -/
+theorem ownedB_iff (h : Heap) (edges : List (Nat × Nat)) :
+    ownedB h edges = true ↔ ∀ e ∈ edges, h.owner e.2 = some e.1 := by
+  simp [ownedB, List.all_eq_true]
+
+end owner
 
 /-- Invariant of a counter-keyed consumer: what it holds was derived at the counter value it
 remembers, and the counter has not moved past the ontology's since without a change. -/
